@@ -2,9 +2,14 @@ mod bulk;
 mod conc;
 mod gen;
 mod guards;
+mod life;
+mod qalloc;
 mod sched;
 mod seq;
 mod types;
+
+#[global_allocator]
+static GLOBAL: qalloc::QAlloc = qalloc::QAlloc;
 
 use std::fmt::Write as _;
 use std::io::Write as _;
@@ -62,6 +67,8 @@ fn cmd_seq(args: &[String]) {
     let ops_path = arg(args, "--ops").unwrap_or("/tmp/ops.txt".into());
     let impl_path = arg(args, "--impl").unwrap_or("/tmp/impl.txt".into());
     let report_path = arg(args, "--report");
+    let life = arg(args, "--life").map(|s| s == "1").unwrap_or(false);
+    let progress = arg(args, "--progress");
     let cfg = gen::GenCfg { max_ops, max_keys };
     let mut ops_f = std::io::BufWriter::new(std::fs::File::create(&ops_path).unwrap());
     let mut impl_f = std::io::BufWriter::new(std::fs::File::create(&impl_path).unwrap());
@@ -80,7 +87,27 @@ fn cmd_seq(args: &[String]) {
         let header = format!("# case {} seed={} facade={:?} hash={}", i, cseed, case.facade, case.hash_class);
         writeln!(ops_f, "{}", header).unwrap();
         writeln!(impl_f, "{}", header).unwrap();
-        let res = seq::run_case(&case);
+        if let Some(p) = &progress {
+            let _ = std::fs::write(p, format!("seq case-seed {}", cseed));
+        }
+        let mut res;
+        if life {
+            // record every hook event of this (unscheduled) thread, keep freed memory in quarantine
+            let s = sched::Sched::new(0, true);
+            qalloc::begin();
+            types::ledger_reset(false);
+            res = sched::with_recording(|| seq::run_case(&case));
+            let trace = s.inner.lock().unwrap().trace.clone();
+            res.failures.extend(life::analyze(&trace, &[], &[]).into_iter().map(|f| format!("{} case {}", f, i)));
+            for p in qalloc::take_double_frees() {
+                res.failures.push(format!("[double-free] case {}: block {:#x} was freed twice", i, p));
+            }
+            res.failures.extend(life::ledger_verdict().into_iter().map(|f| format!("{} case {}", f, i)));
+            s.shutdown();
+            qalloc::end();
+        } else {
+            res = seq::run_case(&case);
+        }
         let mut text = String::new();
         for (op, line) in case.ops.iter().zip(res.lines.iter()) {
             let l = op.line(&case);
@@ -185,6 +212,10 @@ fn cmd_conc(args: &[String]) {
     let budget: usize = arg(args, "--budget").and_then(|s| s.parse().ok()).unwrap_or(20000);
     let only: Option<u64> = arg(args, "--case-seed").and_then(|s| s.parse().ok());
     let verbose = arg(args, "--verbose").is_some();
+    let lin_path = arg(args, "--lin");
+    let progress = arg(args, "--progress");
+    let life = arg(args, "--life").map(|s| s == "1").unwrap_or(false);
+    let mut lin_lines: Vec<String> = vec![];
     types::ledger_reset(false);
     let mut failures: Vec<String> = vec![];
     let (mut steps, mut ops, mut keys_checked, mut distinct) = (0usize, 0usize, 0usize, std::collections::HashSet::new());
@@ -195,11 +226,21 @@ fn cmd_conc(args: &[String]) {
     for i in 0..cases {
         let cseed = only.unwrap_or(seed.wrapping_mul(0x9E3779B97F4A7C15).wrapping_add(i as u64));
         let case = conc::gen_conc(i, cseed, big);
-        let r = conc::run_conc(&case, false, budget);
-        let v = conc::judge(&case, &r);
+        if let Some(p) = &progress {
+            let _ = std::fs::write(p, format!("conc case-seed {}", cseed));
+        }
+        qalloc::begin();
+        let r = conc::run_conc(&case, life, budget);
+        let mut v = conc::judge(&case, &r);
+        v.failures.extend(r.life_failures.iter().cloned());
+        for p in qalloc::take_double_frees() {
+            v.failures.push(format!("[double-free] block {:#x} was freed twice", p));
+        }
+        qalloc::end();
         steps += r.outcome.steps;
         ops += r.calls.len();
         keys_checked += v.keys_checked;
+        lin_lines.extend(v.lin_lines.iter().cloned());
         *by_class.entry(case.hash_class.to_string()).or_default() += 1;
         for e in &r.trace {
             sites.insert(format!("{}:{}", e.file.rsplit('/').next().unwrap_or(""), e.line));
@@ -236,6 +277,9 @@ fn cmd_conc(args: &[String]) {
         if only.is_some() {
             break;
         }
+    }
+    if let Some(p) = lin_path {
+        std::fs::write(p, lin_lines.join("\n") + "\n").unwrap();
     }
     let fmt_map = |m: &std::collections::BTreeMap<String, usize>| {
         format!("{{{}}}", m.iter().map(|(k, v)| format!("{}:{}", json_str(k), v)).collect::<Vec<_>>().join(","))
